@@ -1711,54 +1711,53 @@ Proof.
   - intros l' m Hm. gs. ssimpl. unfold fupd in Hm. destruct (l' =? l) eqn:E; auto.
     apply Nat.eqb_eq in E. subst l'. apply In_skipn in Hm. auto.
   - intros m Hm. ssimpl. apply In_firstn in Hm. apply P in Hm. tauto.
-  - intros x Hx. rewrite Pe. auto.
-  - intros x Hx. rewrite Pe. auto.
+  - intros x Hx. rewrite Pe. gs. apply N. exact Hx.
+  - intros x Hx. rewrite Pe. apply Z. exact Hx.
 Qed.
 
 Lemma sinv_init s l : SInv s -> SInv (with_hs s (hs s ++ [new_handle l])).
 Proof.
   intros [C K].
-  assert (G : forall x, get (with_hs s (hs s ++ [new_handle l])) x = get s x \/
-                        (x = length (hs s) /\ get (with_hs s (hs s ++ [new_handle l])) x = new_handle l) \/
-                        (get (with_hs s (hs s ++ [new_handle l])) x = dflt_h /\ get s x = dflt_h)).
+  set (s' := with_hs s (hs s ++ [new_handle l])).
+  assert (G : forall x, get s' x = get s x \/
+                        (x = length (hs s) /\ get s' x = new_handle l /\ get s x = dflt_h)).
   { intros x. destruct (Nat.lt_trichotomy x (length (hs s))) as [H|[H|H]].
     - left. apply get_app_old; auto.
-    - right; left. subst. split; auto. apply get_app_new.
-    - right; right. split; [apply get_app_oob; auto | apply get_oob; lia]. }
-  assert (Ac : forall x, same_acc (get s x) (get (with_hs s (hs s ++ [new_handle l])) x) \/
-                         (x = length (hs s) /\ get (with_hs s (hs s ++ [new_handle l])) x = new_handle l)).
-  { intros x. destruct (G x) as [E|[E|[E1 E2]]]; auto; left; [rewrite E | rewrite E1, E2]; apply same_acc_refl. }
-  assert (D : forall x, length (hs s) <= x -> get s x = dflt_h) by (intros; apply get_oob; auto).
-  assert (Pn : forall m lst, (forall m', In m' lst -> fst m' < length (hs s)) -> cnt (length (hs s)) lst = 0).
-  { intros _ lst H. apply cnt_zero. intros m Hm E. apply H in Hm. lia. }
+    - right. subst. split; auto. split; [apply get_app_new | apply get_oob; lia].
+    - left. unfold s'. rewrite get_app_oob by auto. symmetry. apply get_oob; lia. }
+  assert (F : forall x, h_signum (get s' x) = h_signum (get s x) /\ h_oneshot (get s' x) = h_oneshot (get s x) /\
+                        h_caught (get s' x) = h_caught (get s x) /\ h_dispatched (get s' x) = h_dispatched (get s x) /\
+                        h_closing (get s' x) = h_closing (get s x) /\ h_closed (get s' x) = h_closed (get s x)).
+  { intros x. destruct (G x) as [->|(_&->&->)]; repeat split. }
+  assert (Pv : forall x, x < length (hs s) -> pending s' x = pending s x).
+  { intros x Hx. apply pending_frame; try reflexivity. destruct (G x) as [->|(E&_)]; auto. lia. }
+  destruct C as [T So C' Q P B N Z].
+  assert (Pn : pending s' (length (hs s)) = 0).
+  { unfold pending. change (pipe_of s') with (pipe_of s). change (batch s') with (batch s).
+    rewrite !cnt_zero; auto.
+    - intros m Hm E. apply B in Hm. lia.
+    - intros m Hm E. apply P in Hm. lia. }
+  assert (L' : length (hs s') = S (length (hs s))).
+  { unfold s'. ssimpl. rewrite app_length. simpl. lia. }
   split.
-  - destruct C as [T So C' Q P B N Z]. split; ssimpl.
-    + intros x. destruct (Ac x) as [(a&_)|(a&b)]; [rewrite a; apply T|].
-      rewrite b. simpl. rewrite T. rewrite D by lia. simpl. tauto.
-    + eapply sorted_ext; [|exact So]. intros x Hx. destruct (Ac x) as [a|(a&b)]; [apply same_acc_key; auto|].
-      apply T in Hx. rewrite D in Hx by lia. simpl in Hx. congruence.
-    + intros x. destruct (Ac x) as [(_&_&_&_&_&a&b)|(a&b)]; [rewrite b; auto | rewrite b; simpl; discriminate].
-    + intros l' x Hx. destruct (Ac x) as [(_&_&_&_&_&a&b)|(a&b)]; eauto.
-      apply Q in Hx. rewrite D in Hx by lia. discriminate.
-    + intros l' m Hm. rewrite app_length. simpl. destruct (P l' m Hm) as [a b]. split; [|lia].
-      rewrite get_app_old by auto. auto.
-    + intros m Hm. rewrite app_length. simpl. apply B in Hm. lia.
-    + intros x Hx. rewrite app_length in Hx. simpl in Hx.
-      destruct (Ac x) as [(_&_&a&b&c&_)|(a&b)].
-      * rewrite b, c. assert (x < length (hs s)).
-        { destruct (Nat.eq_dec x (length (hs s))) as [->|]; [|lia]. exfalso.
-          rewrite get_app_new in a. simpl in a. rewrite D in a by lia. simpl in a.
-          (* same loop by accident: the handle is still the new one *) 
-          clear - Hx. lia. }
-        rewrite N by auto. f_equal. unfold pending. ssimpl. rewrite a. reflexivity.
-      * rewrite b. simpl. subst x. unfold pending. ssimpl. rewrite b. simpl.
-        rewrite (Pn (0,0)), (Pn (0,0)); auto. intros m' Hm'. apply P in Hm'. tauto.
-    + intros x Hx. destruct (Ac x) as [(_&_&a&_&_&_&b)|(a&b)].
-      * rewrite b in Hx. unfold pending. ssimpl. rewrite a. apply Z; auto.
-      * rewrite b in Hx. discriminate.
-  - intros x Hx. destruct (Ac x) as [(a&_&_&_&_&_)|(a&b)].
-    + rewrite a. apply K. destruct (G x) as [E|[[_ E]|[E1 E2]]]; [rewrite E in Hx; auto| |].
-      * rewrite E in Hx. discriminate.
-      * rewrite E1 in Hx. discriminate.
-    + rewrite b. reflexivity.
+  - split; change (tree s') with (tree s); change (clq_of s') with (clq_of s);
+      change (pipe_of s') with (pipe_of s); change (batch s') with (batch s); rewrite ?L'.
+    + intros x. destruct (F x) as (a&_). rewrite a. apply T.
+    + eapply sorted_ext; [|exact So]. intros x Hx.
+      destruct (G x) as [->|(_&_&E)]; [repeat split|].
+      apply T in Hx. rewrite E in Hx. simpl in Hx. congruence.
+    + intros x. destruct (F x) as (_&_&_&_&a&b). rewrite a, b. auto.
+    + intros l' x Hx. destruct (F x) as (_&_&_&_&a&_). rewrite a. eauto.
+    + intros l' m Hm. destruct (P l' m Hm) as [a b]. split; [|lia].
+      destruct (G (fst m)) as [->|(E&_)]; auto. lia.
+    + intros m Hm. apply B in Hm. lia.
+    + intros x Hx. destruct (F x) as (_&_&a&b&_). rewrite a, b.
+      destruct (Nat.eq_dec x (length (hs s))) as [->|Hn].
+      * rewrite Pn. rewrite get_oob by lia. reflexivity.
+      * rewrite Pv by lia. apply N. lia.
+    + intros x Hx. destruct (F x) as (_&_&_&_&_&b). rewrite b in Hx.
+      destruct (Nat.lt_ge_cases x (length (hs s))).
+      * rewrite Pv by auto. auto.
+      * rewrite get_oob in Hx by auto. discriminate.
+  - intros x Hx. destruct (F x) as (a&_&_&_&b&_). rewrite a. rewrite b in Hx. auto.
 Qed.
